@@ -16,9 +16,11 @@ from .core import H
 
 TRAP = {'div0': 'DIVISION_BY_ZERO', 'overflow': 'INVALID_CELL_VALUE',
         'subscript': 'INDEX_OUT_OF_RANGE', 'illegal': 'INVALID_OPERAND_VALUE',
-        'data': 'DEVICE_ERROR', 'device': 'DEVICE_ERROR', 'uninit': 'UNINITIALIZED_MEM'}
+        'data': 'DEVICE_ERROR', 'device': 'DEVICE_ERROR', 'uninit': 'UNINITIALIZED_MEM',
+        'nogosub': 'RETURN_WITHOUT_GOSUB'}
 ERRCODE = {'DIVISION_BY_ZERO': 14, 'INVALID_CELL_VALUE': 10, 'INDEX_OUT_OF_RANGE': 11,
-           'INVALID_OPERAND_VALUE': 9, 'DEVICE_ERROR': 3, 'UNINITIALIZED_MEM': 15}
+           'INVALID_OPERAND_VALUE': 9, 'DEVICE_ERROR': 3, 'UNINITIALIZED_MEM': 15,
+           'RETURN_WITHOUT_GOSUB': 19}
 CELLNAME = {'%': 'INTEGER', '&': 'LONG', '!': 'SINGLE', '#': 'DOUBLE', '$': 'STRING'}
 LIMITS = {'%': (-32768, 32767), '&': (-2147483648, 2147483647)}
 F32_MAX = 3.4028234663852886e+38
@@ -889,6 +891,9 @@ class Interp:
                     self.gosub_depth -= 1
                 self._ret_goto = False
         elif k == 'return':
+            if self.scope.kind != 'main' or self.gosub_depth == 0:
+                # no GOSUB is pending in this routine: a run-time error
+                raise QBError('nogosub')
             raise _Return(s.get('label'))
         elif k == 'call':
             proc = self.env.procs.get(s['name'])
